@@ -17,6 +17,7 @@ Require Import Verif.Proofs.CallerP.
    flags word, level, gate answer and skip count at construction time (the caller information is captured even if
    Lcaller is switched on later; the skip count is the one the logger has when it is written to) *)
 Require Verif.Model.GoSem Verif.Model.BridgeRef Verif.Gen.Bridge Verif.Proofs.GenBridgeP.
+Require Verif.Gen.Layout Verif.Gen.Tables Verif.Model.LayoutRef Verif.Model.Encode Verif.Proofs.GenLayoutP.
 Theorem C14_gen_bridge_pc : forall f_level enabled_then skip_then flags deflevel h lvl f_enabled f_skip f_getpc as_aware w_n w_e buf tr,
   match Bridge.new_log_logger f_level enabled_then skip_then flags deflevel h lvl with
   | BridgeRef.mk_bridge (l, v, cap, extra) _ _ =>
@@ -87,6 +88,19 @@ Print Assumptions C14_skip_ignored_refuted.
 
 (* non-vacuity: the package-level Info (skip 4, three logg frames) with SetSkip(2) under three
    wrappers reports the second frame up; the slog adapter moves with the skip count *)
+(* TIE TO THE SOURCE: THE FUNCTION NAME OF THE CALLER PART.  checkedfuncname, translated from the source on
+   every run (Gen/Layout.v): without Lcallerpackagename the name printed is the text after the last '/' of
+   the frame's function name (the whole name when it holds none) - Encode.after_last_slash, what the three
+   encoders print; with the flag it is the name with the provider table applied, in table order. *)
+Theorem C14_gen_checked_funcname : forall f flags prov name,
+  Layout.checked_funcname f flags prov name = LayoutRef.checked_funcname_ref f flags prov name.
+Proof. exact GenLayoutP.gen_checked_funcname. Qed.
+Print Assumptions C14_gen_checked_funcname.
+Theorem C14_gen_funcname_plain : forall f flags prov name, Z.land flags Tables.c_Lcallerpackagename = 0 ->
+  Layout.checked_funcname f flags prov name = Some (Encode.after_last_slash name).
+Proof. intros f flags prov name H. rewrite GenLayoutP.gen_checked_funcname. exact (GenLayoutP.checked_funcname_plain f flags prov name H). Qed.
+Print Assumptions C14_gen_funcname_plain.
+
 Example C14_example :
   (match find_ep [x70;x6b;x67] [x49;x6e;x66;x6f] entry_points with
    | Some e => (ep_skip e =? 4) && (ep_depth e =? 3) && (user_offset (attributed e 2 3) =? 2)
